@@ -68,6 +68,7 @@ pub fn exec_op2(sim: &Sim, op: &Op, _in_cb: bool) {
         Op::Raise(s) => crate::sig::raise(sim, *s),
         Op::InsertTransient { id, child, from_default, script } => crate::transient::insert_transient(sim, *id, child, *from_default, script),
         Op::TrRemove(id) | Op::TrMap(id) | Op::TrReplace(id, _) => crate::transient::tr_op(sim, *id, op, _in_cb, false),
+        Op::TrChildFail(id, w) => crate::transient::arm_child_failure(sim, *id, *w),
         Op::TrRemoveLazy(id) => crate::transient::tr_op(sim, *id, &Op::TrRemove(*id), _in_cb, true),
         Op::TrReplaceLazy(id, c) => crate::transient::tr_op(sim, *id, &Op::TrReplace(*id, c.clone()), _in_cb, true),
         Op::AdaptIo { id, fd, blocking, .. } => crate::adapter::adapt_io(sim, *id, *fd, *blocking),
@@ -77,6 +78,7 @@ pub fn exec_op2(sim: &Sim, op: &Op, _in_cb: bool) {
         Op::AdapterPeerWrite(id, n) => crate::adapter::peer_write(sim, *id, *n),
         Op::AdapterPeerRead(id, n) => crate::adapter::peer_read(sim, *id, *n),
         Op::AdapterPeerClose(id) => crate::adapter::peer_close(sim, *id),
+        Op::AdapterGiveTo(a, s, w) => crate::adapter::give_to(sim, *a, *s, *w),
         Op::AdapterPeerLastWords(id, n) => {
             crate::adapter::peer_write(sim, *id, *n);
             crate::adapter::peer_close(sim, *id);
